@@ -19,8 +19,10 @@ as composite arrays (flat and 2-d) and as unit objects, and compared with the ex
 Python only converts rationals / surd records to floats, evaluates the point of the reported
 circle at the reported angles and measures distances.
 """
+import concurrent.futures
 import json
 import math
+import os
 import random
 
 import numpy as np
@@ -95,15 +97,34 @@ def fl(x):
 # ----------------------------------------------------------------------------------------
 # TLC
 # ----------------------------------------------------------------------------------------
-def tlc_cases(run, n, kinds, B, coef=2, near=(10,), bx=3, bw=2, thin=1, workers=4):
-    c = core.cfg(constants=dict(N=n, B=B, Kinds=set(kinds), CoefMax=coef, NearM=set(near), Bx=bx, Bw=bw, Thin=thin),
-                 invariants=INVARIANTS)
-    r = run.tlc("hyp/HypCircleCases.tla", c, name="HypCircleCases_n%d" % n, workers=workers, emit_prefix="CASE ")
+def tlc_cases(run, plan, parallel, workers):
+    """one TLC run per dimension (run concurrently); returns {n: {family: [CASE records]}}"""
+    def one(p):
+        c = core.cfg(constants=dict(N=p["n"], B=p["B"], Kinds=set(p["kinds"]), CoefMax=p.get("coef", 2), NearM=set(p.get("near", (10,))),
+                                    Bx=p.get("bx", 3), Bw=p.get("bw", 2), Bs=p.get("bs", p["B"]), Thin=p.get("thin", 1)),
+                     invariants=INVARIANTS)
+        wd = os.path.join(run.work, "HypCircleCases_n%d" % p["n"])
+        return core.run_tlc(os.path.join(core.SPEC, "hyp/HypCircleCases.tla"), c, wd, workers=workers, seed=run.seed, emit_prefix="CASE ")
+    with concurrent.futures.ThreadPoolExecutor(max_workers=parallel) as ex:
+        res = list(ex.map(one, plan))          # MachineryFailure propagates
     out = {}
-    for e in r.emits:
-        out.setdefault(e["kind"], []).append(e)
-    for k in out:
-        out[k].sort(key=lambda e: json.dumps(e, sort_keys=True))
+    for p, r in zip(plan, res):                # deterministic bookkeeping order
+        run.states += r.distinct
+        run.transitions += r.generated
+        d = r.as_dict()
+        d["module"] = "spec/hyp/HypCircleCases.tla"
+        d["run"] = "HypCircleCases_n%d" % p["n"]
+        d["constants"] = {k: (sorted(v) if isinstance(v, (list, tuple, set)) else v) for k, v in p.items()}
+        run.tlc_runs.append(d)
+        fams = {}
+        for e in r.emits:
+            fams.setdefault(e["kind"], []).append(e)
+        for k in fams:
+            fams[k].sort(key=lambda e: json.dumps(e, sort_keys=True))
+        for need in p["kinds"]:
+            if not fams.get(need):
+                raise core.MachineryFailure("no %s cases emitted for n=%d (vacuous run)" % (need, p["n"]))
+        out[p["n"]] = fams
     return out
 
 
@@ -135,6 +156,8 @@ def check_circle(rep, H, label, n, model, keys, out, exp, both_degrees=None):
     st = exp["straight"]
     ns = ~st
     scale = np.maximum(1.0, exp["r"])
+    if exp.get("scale") is not None:
+        scale = np.maximum(scale, exp["scale"])
     # straight-line limit: the only requirement is that the drawing code falls back to a straight line
     with np.errstate(all="ignore"):
         bad = st & np.isfinite(r) & (r <= RADIUS_THRESHOLD)
@@ -153,6 +176,12 @@ def check_circle(rep, H, label, n, model, keys, out, exp, both_degrees=None):
         else:
             bad = ns & ~(np.abs(c[:, -1]) <= ITOL * scale)
             rep.mask(bad, "%s.centre_on_boundary" % label, keys, lambda i: dict(centre=fl(c[i]), radius=float(r[i])))
+        # ... through the end points (all dimensions), on the library's own centre and radius
+        for nm in ("q1", "q2"):
+            if exp.get(nm) is not None:
+                dist = np.abs(np.sqrt(((exp[nm] - c) ** 2).sum(-1)) - r)
+                rep.mask(ns & ~(dist <= 3 * ctol * scale), "%s.through_endpoints" % label, keys,
+                         lambda i: dict(model=model, centre=fl(c[i]), radius=float(r[i]), endpoint=fl(exp[nm][i]), distance_from_circle=float(dist[i])))
     if n != 2 or exp.get("e1") is None:
         return
     # the two reported angles are the two end points, in the order that makes the counter-clockwise arc the inside arc
@@ -273,7 +302,7 @@ def replay_segments(run, n, cases, rng, fam):
     e2 = np.where((first == 1)[:, None], pp2, pp1)
     t1 = np.where(np.where(first == 1, id1, id2), ITOL, TOL)
     t2 = np.where(np.where(first == 1, id2, id1), ITOL, TOL)
-    exp = dict(c=pc, r=pr, straight=st, e1=e1 if n == 2 else None, e2=e2, tol1=t1, tol2=t2, k1=k1, k2=k2)
+    exp = dict(c=pc, r=pr, straight=st, e1=e1 if n == 2 else None, e2=e2, tol1=t1, tol2=t2, k1=k1, k2=k2, q1=pp1, q2=pp2)
     try:
         with np.errstate(all="ignore"):
             out = seg.circle_parameters(model=M.POINCARE, degrees=False)
@@ -292,7 +321,7 @@ def replay_segments(run, n, cases, rng, fam):
     # the geodesic of the segment: the whole inside arc between the ideal end points
     ge1 = np.where((gfirst == 1)[:, None], ku, kv)
     ge2 = np.where((gfirst == 1)[:, None], kv, ku)
-    gexp = dict(c=pc, r=pr, straight=st, e1=ge1 if n == 2 else None, e2=ge2, tol1=np.full(K, ITOL), tol2=np.full(K, ITOL), k1=ku, k2=kv)
+    gexp = dict(c=pc, r=pr, straight=st, e1=ge1 if n == 2 else None, e2=ge2, tol1=np.full(K, ITOL), tol2=np.full(K, ITOL), k1=ku, k2=kv, q1=ku, q2=kv)
     try:
         with np.errstate(all="ignore"):
             geo = seg.geodesic()
@@ -333,13 +362,15 @@ def replay_segments(run, n, cases, rng, fam):
         # the library finds the half-space circle from half-space coordinates of the IDEAL end points
         ht1 = ht2 = np.full(Kh, ITOL)
         nost = np.zeros(Kh, bool)
-        hexp = dict(c=hc, r=hr, straight=nost, e1=f1 if n == 2 else None, e2=f2, tol1=ht1, tol2=ht2, k1=k1[hs], k2=k2[hs], ctol=ITOL)
+        # conformal factor of the half-space chart at the ideal end points (grows towards the point at infinity): the
+        # boundary-conditioned error of the library's ideal points is magnified by it
+        hscale = np.maximum(1 + (hu ** 2).sum(-1), 1 + (hv ** 2).sum(-1)) / 2
+        hexp = dict(c=hc, r=hr, straight=nost, e1=f1 if n == 2 else None, e2=f2, tol1=ht1, tol2=ht2, k1=k1[hs], k2=k2[hs], ctol=ITOL, q1=h1, q2=h2, scale=hscale)
         try:
             segh = H.Segment(P1[hs].copy(), P2[hs].copy())
             with np.errstate(all="ignore"):
                 ih = np.asarray(segh.ideal_endpoint_coords(M.HALFSPACE), float)
-                sc = np.maximum(1.0, np.maximum(np.abs(hu).max(-1), np.abs(hv).max(-1)))
-                rep.mask(unordered(ih, hu, hv, ITOL * sc), "ideal_endpoints.halfspace", hk, lambda i: dict(lib=fl(ih[i]), spec=[fl(hu[i]), fl(hv[i])]))
+                rep.mask(unordered(ih, hu, hv, ITOL * hscale), "ideal_endpoints.halfspace", hk, lambda i: dict(lib=fl(ih[i]), spec=[fl(hu[i]), fl(hv[i])]))
                 out = segh.circle_parameters(model=M.HALFSPACE, degrees=False)
                 outd = segh.circle_parameters(model=M.HALFSPACE, degrees=True)
             check_circle(rep, H, "segment.halfspace", n, "halfspace", hk, out, hexp, both_degrees=outd)
@@ -354,7 +385,7 @@ def replay_segments(run, n, cases, rng, fam):
                 outd = geo.circle_parameters(model=M.HALFSPACE, degrees=True)
             check_circle(rep, H, "geodesic_of_segment.halfspace", n, "halfspace", hk, out,
                          dict(c=hc, r=hr, straight=nost, e1=g1 if n == 2 else None, e2=g2, tol1=np.full(Kh, ITOL), tol2=np.full(Kh, ITOL),
-                              k1=ku[hs], k2=kv[hs], ctol=ITOL), both_degrees=outd)
+                              k1=ku[hs], k2=kv[hs], ctol=ITOL, q1=hu, q2=hv, scale=hscale), both_degrees=outd)
         except Exception as ex:
             rep("raised:segment.circle_parameters.halfspace", hk[0], dict(error="%s: %s" % (type(ex).__name__, ex)))
         run.evaluations += Kh
@@ -461,6 +492,8 @@ def replay_horospheres(run, n, cases, rng, arcs):
             rep("sphere_parameters.%s.shape" % model, kk[0], dict(centre=c.shape, radius=r.shape))
             continue
         scale = np.maximum(1.0, er)
+        if model == "halfspace":        # conformal factor of the chart at the ideal centre
+            scale = np.maximum(scale, (1 + (eu ** 2).sum(-1)) / 2)
         with np.errstate(all="ignore"):
             rep.mask(~(np.abs(c - ec).max(-1) <= ITOL * scale), "horosphere.%s.centre" % model, kk, lambda i: dict(lib=fl(c[i]), spec=fl(ec[i])))
             rep.mask(~(np.abs(r - er) <= ITOL * scale), "horosphere.%s.radius" % model, kk, lambda i: dict(lib=float(r[i]), spec=float(er[i])))
@@ -548,11 +581,14 @@ def replay_horospheres(run, n, cases, rng, arcs):
 # ----------------------------------------------------------------------------------------
 # subspaces and hyperplanes
 # ----------------------------------------------------------------------------------------
-def contains(rep, label, key, c, r, pts, tol, extra):
+def contains(rep, label, key, c, r, pts, tol, extra, conformal=False):
     c, r = np.asarray(c, float), float(r)
     with np.errstate(all="ignore"):
         d = np.abs(np.sqrt(((pts - c) ** 2).sum(-1)) - r)
-        ok = np.isfinite(r) and np.isfinite(c).all() and bool((d <= tol * max(1.0, r)).all())
+        sc = max(1.0, r)
+        if conformal:               # half-space chart: conformal factor at the ideal points
+            sc = max(sc, float((1 + (pts ** 2).sum(-1)).max() / 2))
+        ok = np.isfinite(r) and np.isfinite(c).all() and bool((d <= tol * sc).all())
     if not ok:
         rep(label, key, dict(centre=fl(c), radius=r, ideal_points=fl(pts), distance_from_sphere=fl(d), **extra))
 
@@ -622,9 +658,9 @@ def check_subspace(rep, fam, key, n, e, psph, hsph, bsph):
         contains(rep, "%s.poincare.contains_ideal_points" % fam, key, psph[0], psph[1], kz, ITOL, dict(spec_sphere=[fl(qv(e["pc"])), math.sqrt(q(e["pr2"]))]))
     if e["hs"]:
         hz = np.array([qv(z) for z in e["hz"]])
-        contains(rep, "%s.halfspace.contains_ideal_points" % fam, key, hsph[0], hsph[1], hz, ITOL, {})
+        contains(rep, "%s.halfspace.contains_ideal_points" % fam, key, hsph[0], hsph[1], hz, ITOL, {}, conformal=True)
         if bsph is not None:
-            contains(rep, "%s.boundary_sphere.contains_ideal_points" % fam, key, bsph[0], bsph[1], hz[:, :-1], ITOL, {})
+            contains(rep, "%s.boundary_sphere.contains_ideal_points" % fam, key, bsph[0], bsph[1], hz[:, :-1], ITOL, {}, conformal=True)
 
 
 def replay_hyperplanes(run, n, cases, rng):
@@ -679,15 +715,15 @@ def run(run, replay=None):
                 dict(n=4, kinds=["segment", "horo", "subspace", "hyperplane"], B=2, coef=1, bx=2, bw=1, thin=40)]
     else:
         plan = [dict(n=2, kinds=["segment", "near", "horo", "horoarc", "hyperplane"], B=25, coef=3, near=(3, 10, 30, 100, 300, 1000), bx=9, bw=5),
-                dict(n=3, kinds=["segment", "horo", "subspace", "hyperplane"], B=7, coef=2, bx=5, bw=3, thin=4),
-                dict(n=4, kinds=["segment", "horo", "subspace", "hyperplane"], B=3, coef=2, bx=3, bw=2, thin=60)]
+                dict(n=3, kinds=["segment", "horo", "subspace", "hyperplane"], B=5, coef=2, bx=5, bw=3, bs=5, thin=4),
+                dict(n=4, kinds=["segment", "horo", "subspace", "hyperplane"], B=3, coef=1, bx=3, bw=2, bs=2, thin=3)]
+    cases = tlc_cases(run, plan, parallel=3, workers=3 if quick else 5)
+    count = {}
     for p in plan:
         n = p["n"]
-        fams = tlc_cases(run, n, p["kinds"], p["B"], coef=p.get("coef", 2), near=p.get("near", (10,)), bx=p.get("bx", 3), bw=p.get("bw", 2),
-                         thin=p.get("thin", 1), workers=4 if quick else 8)
-        for need in p["kinds"]:
-            if not fams.get(need):
-                raise core.MachineryFailure("no %s cases emitted for n=%d (vacuous run)" % (need, n))
+        fams = cases[n]
+        for k, v in fams.items():
+            count["%s n=%d" % (k, n)] = len(v)
         replay_segments(run, n, fams["segment"], rng, "segment")
         if "near" in fams:
             replay_segments(run, n, fams["near"], rng, "near_diameter")
@@ -697,3 +733,4 @@ def run(run, replay=None):
         if "subspace" in fams:
             replay_subspaces(run, n, fams["subspace"], rng)
         replay_hyperplanes(run, n, fams["hyperplane"], rng)
+    run.extra["cases_by_family"] = count
